@@ -303,7 +303,11 @@ def finish(pid, tier, seed, mod, results, problems, nshards, t0, kn):
             if p and len(samples) < 12:
                 samples.append(p.pop(0))
 
-    floors = getattr(mod, 'FLOORS', {}).get(tier, {})
+    floors = dict(getattr(mod, 'FLOORS', {}).get(tier, {}))
+    fpath = os.path.join(env.VERIF, 'floors.json')
+    if os.path.exists(fpath):
+        # measured floors (tools/tune_floors.py): <= 40 % of the smallest yield seen on the unchanged tree
+        floors.update(json.load(open(fpath)).get(pid, {}).get(tier, {}))
     floor_report = {}
     starved = []
     for name, minimum in floors.items():
